@@ -52,6 +52,8 @@ pub fn uncompact(cells: &[u64], target_resolution: i32) -> Result<Vec<u64>, Stri
     let mut result = Vec::with_capacity(n);
 
     for (i, &cell) in cells.iter().enumerate() {
+        #[cfg(feature = "verif")]
+        crate::verif::yield_point(crate::verif::site::UNCOMPACT_CELL);
         let resolution = resolutions[i];
         let num_children = get_num_children(resolution, target_resolution);
 
@@ -81,7 +83,12 @@ pub fn compact(cells: &[u64]) -> Result<Vec<u64>, String> {
     }
 
     // Single sort and dedup
+    #[cfg(not(feature = "verif"))]
     let unique_cells: HashSet<u64> = cells.iter().copied().collect();
+    #[cfg(feature = "verif")]
+    let unique_cells: HashSet<u64, crate::verif::SimHashState> = cells.iter().copied().collect();
+    #[cfg(feature = "verif")]
+    crate::verif::yield_point(crate::verif::site::COMPACT_SET);
     let mut current_cells: Vec<u64> = unique_cells.into_iter().collect();
     current_cells.sort_unstable();
 
@@ -89,6 +96,8 @@ pub fn compact(cells: &[u64]) -> Result<Vec<u64>, String> {
     // No re-sorting needed - parents maintain sorted order!
     let mut changed = true;
     while changed {
+        #[cfg(feature = "verif")]
+        crate::verif::yield_point(crate::verif::site::COMPACT_PASS);
         changed = false;
         let mut result = Vec::new();
         let mut i = 0;
